@@ -51,6 +51,10 @@ Section RG.
     calc_next rval ops g E [(kDirect, RFinal m)] = Ok (E, [(kEND, RFinal m)]).
   Proof. intros m Hr. unfold E. rewrite Hr. vm_compute. reflexivity. Qed.
 
+  Lemma calc_direct_late : forall e, rd_nonempty = true ->
+    calc_next rval ops g E [(kDirect, RLate e)] = Ok (E, [(kEND, RLate e)]).
+  Proof. intros e Hr. unfold E. rewrite Hr. vm_compute. reflexivity. Qed.
+
   Definition ls_of (n : nat) (k : key) (v : rval) (s : rstate) (lg : log rval) : loopstate rval rstate :=
     {| ls_step := n; ls_chans := E; ls_next := [(k, v)]; ls_running := []; ls_st := s; ls_log := lg |}.
 
@@ -150,7 +154,8 @@ Section RG.
   Inductive task_rel : React.task -> key -> rval -> Prop :=
   | rel_chat_in : forall ms, task_rel (TChat (Ok ms)) kChat (RIn ms)
   | rel_chat_tools : forall o rr d, task_rel (TChat (res_map (map tool_msg) rr)) kChat (RTools o rr d)
-  | rel_tools : forall chunks m, task_rel (TTools m) kTools (RModel chunks m)
+  | rel_tools : forall chunks m, task_rel (TTools m) kTools (RModel chunks (Some m))
+  | rel_tools_bad : forall chunks, task_rel TToolsBad kTools (RModel chunks None)
   | rel_direct : forall o rs d, rd_nonempty = true -> task_rel (TDirect o) kDirect (RTools o rs d).
 
   Lemma task_rel_node : forall t k v, task_rel t k v -> is_react_node k = true.
@@ -211,11 +216,20 @@ Section Refine.
         unfold exec_chat. cbn [rs_script rs_messages rs_rd rs_inputs rs_rounds rs_emits].
         cbn [agent_loop s_messages s_rd].
         destruct sc as [|[|content calls chunks] sc']; try (fin; fail).
-        destruct (delivered md content calls chunks) as [m|] eqn:Hd; [|fin; fail].
+        destruct (delivered md content calls chunks) as [m|] eqn:Hd.
+        2:{ (* the chunks do not concatenate: routed all the same *)
+            cbn [fst snd].
+            destruct (checker (emitted_chunks md content calls chunks)) eqn:Hc.
+            - rewrite calc_chat_tools by exact Hc. cbn [nlist_get N.eqb kEND kTools Pos.eqb].
+              pose proof (IH (S n) TToolsBad kTools (RModel (emitted_chunks md content calls chunks) None)
+                             sc' (msgs ++ ms)%list rdid (ins ++ [modifier (msgs ++ ms)])%list rnds ems
+                             (lg ++ [step_entry rval [] [(kChat, RIn ms)]])%list Hn' (rel_tools_bad rdn _)) as H1.
+              unfold ls_of in H1. rewrite H1. fin.
+            - rewrite calc_chat_end by exact Hc. cbn [nlist_get N.eqb kEND Pos.eqb]. fin. }
         cbn [fst snd].
         destruct (checker (emitted_chunks md content calls chunks)) eqn:Hc.
         * rewrite calc_chat_tools by exact Hc. cbn [nlist_get N.eqb kEND kTools Pos.eqb].
-          pose proof (IH (S n) (TTools m) kTools (RModel (emitted_chunks md content calls chunks) m)
+          pose proof (IH (S n) (TTools m) kTools (RModel (emitted_chunks md content calls chunks) (Some m))
                          sc' (msgs ++ ms)%list rdid (ins ++ [modifier (msgs ++ ms)])%list rnds (ems ++ [m])%list
                          (lg ++ [step_entry rval [] [(kChat, RIn ms)]])%list Hn' (rel_tools rdn _ _)) as H1.
           unfold ls_of in H1. rewrite H1. fin.
@@ -231,17 +245,25 @@ Section Refine.
         unfold exec_chat. cbn [rs_script rs_messages rs_rd rs_inputs rs_rounds rs_emits].
         cbn [res_map agent_loop s_messages s_rd].
         destruct sc as [|[|content calls chunks] sc']; try (fin; fail).
-        destruct (delivered md content calls chunks) as [m|] eqn:Hd; [|fin; fail].
+        destruct (delivered md content calls chunks) as [m|] eqn:Hd.
+        2:{ cbn [fst snd].
+            destruct (checker (emitted_chunks md content calls chunks)) eqn:Hc.
+            - rewrite calc_chat_tools by exact Hc. cbn [nlist_get N.eqb kEND kTools Pos.eqb].
+              pose proof (IH (S n) TToolsBad kTools (RModel (emitted_chunks md content calls chunks) None)
+                             sc' (msgs ++ map tool_msg rs)%list rdid (ins ++ [modifier (msgs ++ map tool_msg rs)])%list rnds ems
+                             (lg ++ [step_entry rval [] [(kChat, RTools o (Ok rs) d)]])%list Hn' (rel_tools_bad rdn _)) as H1.
+              unfold ls_of in H1. rewrite H1. fin.
+            - rewrite calc_chat_end by exact Hc. cbn [nlist_get N.eqb kEND Pos.eqb]. fin. }
         cbn [fst snd].
         destruct (checker (emitted_chunks md content calls chunks)) eqn:Hc.
         * rewrite calc_chat_tools by exact Hc. cbn [nlist_get N.eqb kEND kTools Pos.eqb].
-          pose proof (IH (S n) (TTools m) kTools (RModel (emitted_chunks md content calls chunks) m)
+          pose proof (IH (S n) (TTools m) kTools (RModel (emitted_chunks md content calls chunks) (Some m))
                          sc' (msgs ++ map tool_msg rs)%list rdid (ins ++ [modifier (msgs ++ map tool_msg rs)])%list rnds (ems ++ [m])%list
                          (lg ++ [step_entry rval [] [(kChat, RTools o (Ok rs) d)]])%list Hn' (rel_tools rdn _ _)) as H1.
           unfold ls_of in H1. rewrite H1. fin.
         * rewrite calc_chat_end by exact Hc. cbn [nlist_get N.eqb kEND Pos.eqb]. fin.
       + (* tools *)
-        change (rexec rdn ?s [kTools] (RModel chunks m)) with (exec_tools tn tns rd rdn visible md m s).
+        change (rexec rdn ?s [kTools] (RModel chunks (Some m))) with (exec_tools tn tns rd rdn visible md m s).
         unfold exec_tools. cbn [rs_script rs_messages rs_rd rs_inputs rs_rounds rs_emits].
         cbn [agent_loop s_messages s_rd].
         destruct (tools_out tn tns md (m_calls m)) as [o|e|] eqn:Et;
@@ -256,28 +278,32 @@ Section Refine.
              pose proof (IH (S n) (TDirect o) kDirect (RTools o rr true)
                          sc (msgs ++ [m])%list (Some ix) ins (rnds ++ [m_calls m])%list
                          (ems ++ em)%list
-                         (lg ++ [step_entry rval [] [(kTools, RModel chunks m)]])%list Hn' (rel_direct true _ _ _ eq_refl)) as H1.
+                         (lg ++ [step_entry rval [] [(kTools, RModel chunks (Some m))]])%list Hn' (rel_direct true _ _ _ eq_refl)) as H1.
              unfold ls_of in H1. rewrite H1. fin.
           -- cbn [nlist_get N.eqb kEND kChat Pos.eqb].
              pose proof (IH (S n) (TChat (res_map (map tool_msg) rr)) kChat (RTools o rr false)
                          sc (msgs ++ [m])%list None ins (rnds ++ [m_calls m])%list
                          (ems ++ em)%list
-                         (lg ++ [step_entry rval [] [(kTools, RModel chunks m)]])%list Hn' (rel_chat_tools true _ _ _)) as H1.
+                         (lg ++ [step_entry rval [] [(kTools, RModel chunks (Some m))]])%list Hn' (rel_chat_tools true _ _ _)) as H1.
              unfold ls_of in H1. rewrite H1. fin.
         * rewrite calc_tools_edge by reflexivity. cbn [nlist_get N.eqb kEND kChat Pos.eqb is_some].
           pose proof (IH (S n) (TChat (res_map (map tool_msg) rr)) kChat (RTools o rr false)
                          sc (msgs ++ [m])%list None ins (rnds ++ [m_calls m])%list
                          (ems ++ em)%list
-                         (lg ++ [step_entry rval [] [(kTools, RModel chunks m)]])%list Hn' (rel_chat_tools false _ _ _)) as H1.
+                         (lg ++ [step_entry rval [] [(kTools, RModel chunks (Some m))]])%list Hn' (rel_chat_tools false _ _ _)) as H1.
           unfold ls_of in H1. rewrite H1. fin.
+      + (* tools on a model output that cannot be concatenated *)
+        change (rexec rdn ?s [kTools] (RModel chunks None)) with ((@Err rval cConcat), s).
+        cbn [fst snd agent_loop]. fin.
       + (* direct_return *)
         change (rexec true ?s [kDirect] (RTools o rs d)) with (exec_direct o s).
         unfold exec_direct. cbn [rs_script rs_messages rs_rd rs_inputs rs_rounds rs_emits].
         cbn [agent_loop s_messages s_rd].
         destruct rdid as [ix|]; [|fin; fail].
-        destruct (tout_direct ix o) as [[r|]|e|];
-          [| fin; fail | cbn [fst snd]; unfold trace_of, out_of; cbn [fst snd option_map]; rewrite out_of_tools_err; fin; fail | fin; fail].
-        cbn [fst snd]. rewrite calc_direct by auto. cbn [nlist_get N.eqb kEND Pos.eqb]. fin.
+        destruct (tout_direct ix o) as [[r|]|e|]; [| fin; fail | |].
+        * cbn [fst snd]. rewrite calc_direct by auto. cbn [nlist_get N.eqb kEND Pos.eqb]. fin.
+        * cbn [fst snd]. rewrite calc_direct_late by auto. cbn [nlist_get N.eqb kEND Pos.eqb]. fin.
+        * cbn [fst snd]. rewrite calc_direct_late by auto. cbn [nlist_get N.eqb kEND Pos.eqb]. fin.
   Qed.
 End Refine.
 
@@ -348,11 +374,11 @@ Section Supersteps.
       - apply andb_true_iff in Hk. destruct Hk as [Hr Hk]. apply N.eqb_eq in Hk. auto. }
     unfold follows. unfold Proofs.ReactGraph.E.
     destruct Hcases as [Hk1|[Hk1|[Hr Hk1]]]; subst k.
-    - destruct o as [ms|chunks m|o rs d|m]; try destruct (checker chunks) eqn:Hc; try destruct d; destruct rdn;
+    - destruct o as [ms|chunks mo|o rs d|m|e]; try destruct (checker chunks) eqn:Hc; try destruct d; destruct rdn;
         eexists; (split; [cbv -[N.modulo]; try rewrite Hc; vm_compute; reflexivity|]); vm_compute; auto.
-    - destruct o as [ms|chunks m|o rs d|m]; try destruct (checker chunks) eqn:Hc; try destruct d; destruct rdn;
+    - destruct o as [ms|chunks mo|o rs d|m|e]; try destruct (checker chunks) eqn:Hc; try destruct d; destruct rdn;
         eexists; (split; [cbv -[N.modulo]; try rewrite Hc; vm_compute; reflexivity|]); auto 10.
-    - rewrite Hr. destruct o as [ms|chunks m|o rs d|m]; try destruct (checker chunks) eqn:Hc; try destruct d;
+    - rewrite Hr. destruct o as [ms|chunks mo|o rs d|m|e]; try destruct (checker chunks) eqn:Hc; try destruct d;
         eexists; (split; [cbv -[N.modulo]; try rewrite Hc; vm_compute; reflexivity|]); auto.
   Qed.
 
